@@ -115,6 +115,58 @@ theorem bigEdgeOwnCells_mapC (g : Id → Id) (hg : Function.Injective g) (m : Me
     exact neighboursInCell_mapC g hg m _ _ c
   · rw [ownCells_mapC]
 
+/-- the column of a cell (`mapping_order`) and its stored cycle travel with the cell -/
+theorem cellPos_mapC (g : Id → Id) (hg : Function.Injective g) (m : Mesh) (c : Id) :
+    (m.mapC g).cellPos (g c) = m.cellPos c ∧ (m.mapC g).cellCycle (g c) = m.cellCycle c := by
+  have hk : (m.mapC g).cells.map (·.1) = (m.cells.map (·.1)).map g := by
+    unfold Mesh.mapC; simp only [List.map_map]; rfl
+  have hpt : (m.mapC g).pt = m.pt := by
+    funext k
+    unfold Mesh.pt Mesh.vertex? Mesh.mapC
+    simp only
+    rw [C07m.alGet?_map_snd]
+    cases alGet? k m.vertices <;> rfl
+  constructor
+  · unfold Mesh.cellPos
+    rw [hk, C07m.indexOf?_map g hg, List.length_map]
+  · unfold Mesh.cellCycle
+    rw [cell?_mapC g hg, hpt]
+    cases m.cell? c <;> rfl
+
+/-- the pressure row of an interface with (at least) two own cells — the guard under which `get_row` does not raise —
+    is IDENTICAL after renumbering the cells -/
+theorem interfaceRow_mapC (g : Id → Id) (hg : Function.Injective g) (m : Mesh) (e : List Id)
+    (h2 : 2 ≤ (m.bigEdgeOwnCells e).length) : (m.mapC g).interfaceRow e = m.interfaceRow e := by
+  have hget : ∀ (l : List Id) (i : Nat), i < l.length → (l.map g).getD i 0 = g (l.getD i 0) := by
+    intro l i hi
+    simp [List.getD_eq_getElem?_getD, List.getElem?_map, List.getElem?_eq_getElem hi]
+  have hk : (m.mapC g).cells.map (·.1) = (m.cells.map (·.1)).map g := by
+    unfold Mesh.mapC; simp only [List.map_map]; rfl
+  unfold Mesh.interfaceRow
+  simp only
+  rw [bigEdgeOwnCells_mapC g hg, hget _ 0 (by omega), hget _ 1 (by omega), (cellPos_mapC g hg m _).1,
+    (cellPos_mapC g hg m _).1, (cellPos_mapC g hg m _).2, hk, List.length_map]
+
+/-- THE PRESSURE SYSTEM IS IDENTICAL under renumbering of the cells (columns are positions in the cell dictionary),
+    when every interface that gets an equation has two own cells (otherwise Python raises `ValueError`) -/
+theorem pressureSystem_mapC (g : Id → Id) (hg : Function.Injective g) (m : Mesh) (tens curv : List Rat)
+    (h2 : ∀ i ∈ m.internalIdx m.bigEdgesList, 2 ≤ (m.bigEdgeOwnCells (m.bigEdgesList.getD i [])).length) :
+    (m.mapC g).pressureSystem tens curv = m.pressureSystem tens curv := by
+  have hk : (m.mapC g).cells.map (·.1) = (m.cells.map (·.1)).map g := by
+    unfold Mesh.mapC; simp only [List.map_map]; rfl
+  have hrows : (m.internalIdx m.bigEdgesList).map (fun i =>
+        (((m.mapC g).bigEdgeOwnCells (m.bigEdgesList.getD i [])).length,
+          (m.mapC g).interfaceRow (m.bigEdgesList.getD i []), pressureRhs (tens.getD i 0) (curv.getD i 0)))
+      = (m.internalIdx m.bigEdgesList).map (fun i =>
+        ((m.bigEdgeOwnCells (m.bigEdgesList.getD i [])).length,
+          m.interfaceRow (m.bigEdgesList.getD i []), pressureRhs (tens.getD i 0) (curv.getD i 0))) := by
+    apply List.map_congr_left
+    intro i hi
+    rw [bigEdgeOwnCells_mapC g hg, List.length_map, interfaceRow_mapC g hg m _ (h2 i hi)]
+  unfold Mesh.pressureSystem
+  simp only [bigEdgesList_mapC, (classification_mapC g m _).2.1, hk, List.length_map]
+  rw [hrows]
+
 /-! ### 4. renumbering the mesh-edge ids -/
 
 /-- the junction test only counts the mesh edges of a vertex: ANY renumbering of the mesh edges leaves the interface
@@ -141,24 +193,56 @@ theorem bigEdgeEdges_mapE (g : Id → Id) (hg : Function.Injective g) (m : Mesh)
   intro ab _
   simp only [Function.comp, ownEdges_mapE, listInter_map g hg, List.head?_map]
 
-/-! ### 5. `BigEdge.own_cells` of an interface stored backwards -/
+/-! ### 5. `BigEdge.own_cells` when the cells, or the interface, are stored differently -/
 
-/-- an interface with an odd number of points (≠ 2) read backwards has the same middle vertex, hence the same cells -/
-theorem bigEdgeOwnCells_reverse_odd (m : Mesh) (e : List Id) (ho : e.length % 2 = 1) :
-    m.bigEdgeOwnCells e.reverse = m.bigEdgeOwnCells e := by
+/-- `are_neighbours` does not depend on where the cycle starts (its dependence on the sense: C04 system, reversal) -/
+theorem c07_cyclicNeighbours_rotate (ids : List Id) (hn : ids.Nodup) (k : Nat) (a b : Id) :
+    cyclicNeighbours (ids.rotate k) a b = cyclicNeighbours ids a b :=
+  C07x.cyclicNeighbours_rotate ids hn k a b
+
+/-- … nor on which of the two ends is asked first -/
+theorem c07_cyclicNeighbours_symm (ids : List Id) (hn : ids.Nodup) (a b : Id) :
+    cyclicNeighbours ids b a = cyclicNeighbours ids a b := by
+  rw [Bool.eq_iff_iff, cyclicNeighbours_spec ids hn, cyclicNeighbours_spec ids hn]
+  exact Or.comm
+
+/-- EVERY cell started at an arbitrary vertex and stored in an arbitrary sense (same keys, same dictionary order, no
+    cell repeats a vertex): `BigEdge.own_cells` of every interface is the identical list -/
+theorem bigEdgeOwnCells_sameCycles (m m' : Mesh) (hv : m'.vertices = m.vertices)
+    (h : List.Forall₂ (fun q' q : Id × Cell => q'.1 = q.1 ∧ (SameCycle q'.2.verts q.2.verts ∧ q.2.verts.Nodup))
+      m'.cells m.cells) (e : List Id) :
+    m'.bigEdgeOwnCells e = m.bigEdgeOwnCells e := by
+  have hO := C07o.ownCells_congr m m' hv
+  have hN : ∀ a b c, m'.neighboursInCell a b c = m.neighboursInCell a b c := by
+    intro a b c
+    unfold Mesh.neighboursInCell Mesh.cell?
+    rcases alGet?_forall₂ (R := fun c' c : Cell => SameCycle c'.verts c.verts ∧ c.verts.Nodup) h c with
+      ⟨h1, h2⟩ | ⟨c', c0, h1, h2, hS, hn⟩
+    · rw [h1, h2]
+    · rw [h1, h2]
+      exact cyclicNeighbours_sameCycle _ _ hS hn a b
   unfold Mesh.bigEdgeOwnCells
-  have h2 : (e.length == 2) = false := by
-    apply beq_false_of_ne; omega
-  rw [List.length_reverse, h2]
-  simp only [Bool.false_eq_true, if_false]
-  have hi : (e.length - 1) / 2 < e.length := by omega
-  have hg : e.reverse.getD ((e.length - 1) / 2) 0 = e.getD ((e.length - 1) / 2) 0 := by
-    rw [List.getD_eq_getElem?_getD, List.getD_eq_getElem?_getD, List.getElem?_reverse hi]
-    have hk : e.length - 1 - (e.length - 1) / 2 = (e.length - 1) / 2 := by omega
-    rw [hk]
-  rw [hg]
+  rw [hO]
+  split
+  · congr 1
+    funext c
+    exact hN _ _ c
+  · rfl
 
-/-- FALSE for an even number of points ≥ 4:
+/-- a two-point interface stored backwards has the same cells (as a set; the order follows the first end's list) -/
+theorem mem_bigEdgeOwnCells_two_point_swap (m : Mesh) (hnd : ∀ c cl, m.cell? c = some cl → cl.verts.Nodup)
+    (a b c : Id) : c ∈ m.bigEdgeOwnCells [b, a] ↔ c ∈ m.bigEdgeOwnCells [a, b] := by
+  have hN : m.neighboursInCell b a c = m.neighboursInCell a b c := by
+    unfold Mesh.neighboursInCell
+    cases hc : m.cell? c with
+    | none => rfl
+    | some cl => exact c07_cyclicNeighbours_symm cl.verts (hnd c cl hc) a b
+  unfold Mesh.bigEdgeOwnCells listInter
+  simp
+  rw [hN]
+  tauto
+
+/-- (odd number of points: C04 `ownCells_reverse_odd`.)  FALSE for an even number of points ≥ 4:
       theorem bigEdgeOwnCells_reverse (m : Mesh) (e : List Id) : m.bigEdgeOwnCells e.reverse = m.bigEdgeOwnCells e
     the model (like `BigEdge.__post_init__`, `self.vertices[(len-1)//2]`) reads the cells of ANOTHER interior vertex; in
     a consistent tissue both interior vertices lie in the same two cells, but their `ownCells` lists may be stored in a
@@ -215,17 +299,47 @@ example : Function.Injective (fun c : Id => 5 * c - 20) := by
   omega
 
 /-- injectivity is needed for `own_cells`: when two cells receive the same id, the cell dictionary of the renumbered
-    tissue finds the FIRST cell under the shared key — the chord `[1, 0]`, common to cells 0 and 2, loses its second
-    cell's test against the right cycle -/
-def merge02 (c : Id) : Id := if c = 2 then 0 else c
+    tissue finds the FIRST cell under the shared key — the spoke `[3, 0]`, common to cells 1 and 2, is tested against the
+    cycle of cell 0 (where 3 does not occur) instead of cell 2 and loses that cell -/
+def c07Merge02 (c : Id) : Id := if c = 2 then 0 else c
 theorem bigEdgeOwnCells_mapC_noninjective_witness :
-    (balMesh.mapC merge02).bigEdgeOwnCells [3, 0] ≠ (balMesh.bigEdgeOwnCells [3, 0]).map merge02 ∨
-    (balMesh.mapC merge02).bigEdgeOwnCells [1, 4] ≠ (balMesh.bigEdgeOwnCells [1, 4]).map merge02 ∨
-    (balMesh.mapC merge02).bigEdgeOwnCells [1, 0] ≠ (balMesh.bigEdgeOwnCells [1, 0]).map merge02 := by
+    (balMesh.mapC c07Merge02).bigEdgeOwnCells [3, 0] = [1] ∧ (balMesh.bigEdgeOwnCells [3, 0]).map c07Merge02 = [1, 0] ∧
+    c07Merge02 2 = c07Merge02 0 := by
   decide +kernel
 
-/-- hypothesis `ho` of `bigEdgeOwnCells_reverse_odd` -/
-example : ([0, 2, 1] : List Id).length % 2 = 1 ∧ [0, 2, 1] ∈ balMesh.bigEdgesList := by decide +kernel
+/-- guard `h2` of `interfaceRow_mapC` / `pressureSystem_mapC` on the lens tissue, and the system computed on the
+    renumbered tissue -/
+example : (∀ i ∈ balMesh.internalIdx balMesh.bigEdgesList,
+      2 ≤ (balMesh.bigEdgeOwnCells (balMesh.bigEdgesList.getD i [])).length) ∧
+    (balMesh.mapC (5 * · - 20)).pressureSystem [1, 2, 3, 4, 5, 6] [0, 0, 0, 0, 0, 0]
+      = balMesh.pressureSystem [1, 2, 3, 4, 5, 6] [0, 0, 0, 0, 0, 0] ∧
+    (balMesh.pressureSystem [1, 2, 3, 4, 5, 6] [0, 0, 0, 0, 0, 0]).lhs ≠ [] := by
+  decide +kernel
+
+/-- hypotheses of `bigEdgeOwnCells_sameCycles` on the lens tissue with all three cycles stored differently (keys and
+    dictionary order kept), `hnd` of `mem_bigEdgeOwnCells_two_point_swap`, `hn` of `c07_cyclicNeighbours_rotate / _symm` -/
+def balMeshTurned : Mesh :=
+  { balMesh with cells := [(0, ⟨0, [2, 0, 1], true⟩), (1, ⟨1, [4, 5, 3, 0, 2, 1], true⟩),
+                           (2, ⟨2, [0, 1, 4, 6, 3], true⟩)] }
+
+example : balMeshTurned.vertices = balMesh.vertices ∧
+    List.Forall₂ (fun q' q : Id × Cell => q'.1 = q.1 ∧ (SameCycle q'.2.verts q.2.verts ∧ q.2.verts.Nodup))
+      balMeshTurned.cells balMesh.cells := by
+  refine ⟨rfl, ?_⟩
+  have h : balMesh.cells = [(0, ⟨0, [0, 2, 1], true⟩), (1, ⟨1, [3, 0, 2, 1, 4, 5], true⟩),
+      (2, ⟨2, [3, 6, 4, 1, 0], true⟩)] := by rfl
+  rw [h]
+  exact .cons ⟨rfl, ⟨2, Or.inr (by decide)⟩, by decide⟩ (.cons ⟨rfl, ⟨4, Or.inl (by decide)⟩, by decide⟩
+    (.cons ⟨rfl, ⟨0, Or.inr (by decide)⟩, by decide⟩ .nil))
+
+example : ∀ c cl, balMesh.cell? c = some cl → cl.verts.Nodup := by
+  intro c cl h
+  have hm : (c, cl) ∈ balMesh.cells := ((C07o.alGet?_some_iff balMesh.cells (by decide +kernel) c cl).1 h)
+  have h' : balMesh.cells = [(0, ⟨0, [0, 2, 1], true⟩), (1, ⟨1, [3, 0, 2, 1, 4, 5], true⟩),
+      (2, ⟨2, [3, 6, 4, 1, 0], true⟩)] := by rfl
+  rw [h'] at hm
+  simp only [List.mem_cons, Prod.mk.injEq, List.not_mem_nil, or_false] at hm
+  rcases hm with ⟨_, rfl⟩ | ⟨_, rfl⟩ | ⟨_, rfl⟩ <;> decide
 
 /-- hypotheses of `tensionRows_length_sameInterfaces`, `physical_sameInterfaces` on the reversed dictionary -/
 example : (balMesh.permuteCells balMesh.cells.reverse).ownCells = balMesh.ownCells ∧
